@@ -5,6 +5,7 @@ import (
 	"crypto/ecdsa"
 	"crypto/sha256"
 	"encoding/hex"
+	tsstypes "github.com/teleport-network/teleport/x/xibc/clients/tss-client/types"
 	"math/big"
 	"sort"
 	"strings"
@@ -205,7 +206,11 @@ func driveBSCClient(t *testing.T, in, out string, seed int64) {
 		l.EnsureRelayer([]string{bscName})
 		init := b[0]
 		epoch, initNumber, initSet, initSigner := uint64(num(init["epoch"])), uint64(num(init["number"])), ints(init["set"]), int(num(init["signer"]))
-		g := keys.header(initNumber, common.Hash{}, initSigner, true, 2, initSet, true, "root-genesis")
+		initAnn := initSet // the list the creation header announces (default: the set in force)
+		if _, ok := init["ann"]; ok {
+			initAnn = ints(init["ann"])
+		}
+		g := keys.header(initNumber, common.Hash{}, initSigner, true, 2, initAnn, true, "root-genesis")
 		var valBytes [][]byte
 		for _, v := range initSet {
 			valBytes = append(valBytes, keys.Addrs[v-1].Bytes())
@@ -213,10 +218,25 @@ func driveBSCClient(t *testing.T, in, out string, seed int64) {
 		cs := &bsctypes.ClientState{Header: *g, ChainId: bscChainID, Epoch: epoch, BlockInteval: 3, Validators: valBytes,
 			ContractAddress: common.HexToAddress("0x1234").Bytes(), TrustingPeriod: 1_000_000_000}
 		cons := &bsctypes.ConsensusState{Timestamp: g.Time, Height: g.Height, Root: g.Root}
-		prop, err := clienttypes.NewCreateClientProposal("t", "d", bscName, cs, cons)
-		must(err)
-		if res, msg := c.ExecProposal(prop); res != "ok" {
-			t.Fatalf("create bsc client: %s %s", res, msg)
+		if str(init["via"]) == "toggle" {
+			// the name first gets a TSS client; governance then toggles it to the BSC type
+			tss := &tsstypes.ClientState{TssAddress: c.Accts[lcRelayer].Acc.String(), Pubkey: []byte{1, 2, 3}, PartPubkeys: [][]byte{{4}, {5}}, Threshold: 2}
+			p0, err := clienttypes.NewCreateClientProposal("t", "d", bscName, tss, &tsstypes.ConsensusState{})
+			must(err)
+			if res, msg := c.ExecProposal(p0); res != "ok" {
+				t.Fatalf("create tss client: %s %s", res, msg)
+			}
+			p1, err := clienttypes.NewToggleClientProposal("t", "d", bscName, cs, cons)
+			must(err)
+			if res, msg := c.ExecProposal(p1); res != "ok" {
+				t.Fatalf("toggle to bsc client: %s %s", res, msg)
+			}
+		} else {
+			prop, err := clienttypes.NewCreateClientProposal("t", "d", bscName, cs, cons)
+			must(err)
+			if res, msg := c.ExecProposal(prop); res != "ok" {
+				t.Fatalf("create bsc client: %s %s", res, msg)
+			}
 		}
 		w.Head = g
 		z := M{"pre": "", "post": ""}
